@@ -353,6 +353,22 @@ ASSUMPTIONS = [
 ]
 
 
+def cpu_buckets(c):
+    """Executions per simulated CPU count: exact for 1..=16 and the injected query failure, ranges above."""
+    out = {}
+    for k, v in c.items():
+        if not k.startswith("cpu/"):
+            continue
+        t = k[4:]
+        if t == "err":
+            key = "query_failed"
+        else:
+            n = int(t)
+            key = "%02d" % n if n <= 16 else "17-32" if n <= 32 else "33-64" if n <= 64 else "65-256" if n <= 256 else "257+"
+        out[key] = out.get(key, 0) + v
+    return dict(sorted(out.items()))
+
+
 def sched_phase(pid, tier, runs=None):
     """Run the shuttle-engine lane of a property. Returns a dict with everything the evidence needs."""
     seed = verif_seed()
@@ -431,7 +447,7 @@ def sched_phase(pid, tier, runs=None):
         "fault_kinds_not_applicable": "message loss/duplication/reordering, partitions, torn/short/lost writes, disk "
                                       "full, clock skew/jumps, crash-restart: graaf has no network, disk, clock or "
                                       "durable state for them to act on",
-        "cpu_counts_covered": {k[4:]: v for k, v in sorted(c.items()) if k.startswith("cpu/")},
+        "cpu_counts_covered": cpu_buckets(c),
         "relation_classes": {k[4:]: v for k, v in sorted(c.items()) if k.startswith("rel/")},
         "schedulers": {k[6:]: v for k, v in sorted(c.items()) if k.startswith("sched/")},
         "operations": {k[3:]: v for k, v in sorted(c.items()) if k.startswith("op/")},
